@@ -116,10 +116,14 @@ def run_program(ctx, prog, rng, pidx):
         for faults in placements:
             for extractor in ([rng.choice(fr.EXTRACTORS)] if ctx.quick and len(placements) > 12 else fr.EXTRACTORS):
                 bk = extractor is not None
+                # the operation is called from ordinary code, or from a compensating path (except / finally block) of its caller
+                cc = rng.choice(fr.CALLER_CONTEXTS) if rng.random() < 0.5 else 'plain'
+                ctx.count('called_from_' + cc)
                 res = fr.execute(prog, faults, extractor=extractor, recorder=rec, spy=spy, box=box, with_twin=False, built=builts.get(bk),
-                                 cls_name='GenOp%d%s' % (prog['uid'], 'X' if bk else 'N'))
+                                 cls_name='GenOp%d%s' % (prog['uid'], 'X' if bk else 'N'), caller_context=cc)
                 builts[bk] = res.live
-                w = {'gen_seed': prog['gen_seed'], 'program': describe(prog), 'faults': fr.faults_json(faults), 'extractor': extractor, 'cassette': kind}
+                w = {'gen_seed': prog['gen_seed'], 'program': describe(prog), 'faults': fr.faults_json(faults), 'extractor': extractor, 'cassette': kind,
+                     'caller_context': cc}
                 saves = [e for e in res.spy_events if e[0] == 'save']
                 ctx.case({'p': prog['gen_seed'], 'f': fr.faults_json(faults), 'x': extractor}, nontrivial=bool(saves))
                 if len(saves) != 1:
